@@ -486,6 +486,8 @@ PROPS["C03"] = dict(
     assumptions=["sweeps are either before all pending deadlines or after all of them (deadlines of one case differ by milliseconds only; per-entry timing is C04's subject)",
                  "ticker wiring: a retransmission must appear within 30 s of real time (nominal 3-4 s); under a backlog two within 25 s (nominal 7-8 s)"],
     runs=[
+        # a retransmission whose write fails (nothing arrives, the connection stays usable) leaves the exchange open: sent again at the next deadline
+        dict(name="writefault", pkg="c03", run="TestTransientWriteFault", checks=dict(quick=64, thorough=1600), shards=8, timeout=dict(quick=400, thorough=2400), shrinktime="60s"),
         # subscribers that answer every packet the instant they hold it (hook before the broker's write returns): after all deadlines nothing is re-sent, ids free
         dict(name="ackatreceipt", pkg="c03", run="TestAckAtReceipt", checks=dict(quick=64, thorough=1600), shards=8, timeout=dict(quick=400, thorough=2400), shrinktime="60s"),
         dict(name="regress", pkg="c03", run="TestRegress", timeout=300),
@@ -673,7 +675,7 @@ ADDITIONS = {
     "C13": "Run silent: the dying session sends the first 1..n-1 bytes of a PUBLISH, SUBSCRIBE or UNSUBSCRIBE and then nothing, without closing; when its keep-alive allowance has passed (virtual clock) the connection is closed, the will reaches the watchers on 1-2 nodes exactly once (retained if asked), and nothing of the unfinished packet has any effect. Generator: 1-3 further sessions on the dying session's node with byte-identical wills (each session's will is its own).",
     "C14": "Run panic (package c05): a destination whose write panics; the unchanged broker dies (nothing acknowledged), a survivor must not acknowledge. The judged publishes also carry the RETAIN flag and zero-length payloads.",
     "C02": "Run suback: a publish from another connection sent, and acknowledged, at the very moment the subscriber has received its SUBACK (hook on the fake connection) must reach that subscriber (1-3 filters, 0-60 retained messages replayed in between, QoS 1/2).",
-    "C03": "Run ackatreceipt: 1-3 subscribers answer every PUBLISH / PUBREL the instant they hold it, from a hook that runs before the broker's write of that packet returns (and waits until the broker has consumed the answer); when afterwards every deadline passes twice nothing is sent again, every message was received once and all 65535 identifiers are free.",
+    "C03": "Run ackatreceipt: 1-3 subscribers answer every PUBLISH / PUBREL the instant they hold it, from a hook that runs before the broker's write of that packet returns (and waits until the broker has consumed the answer); when afterwards every deadline passes twice nothing is sent again, every message was received once and all 65535 identifiers are free. Run writefault: 0-3 retransmissions of an unanswered QoS 1 PUBLISH / QoS 2 PUBLISH / PUBREL fail in Write (transient fault injected on the fake connection, which stays usable); the exchange stays open and is sent again at the next deadline, completes when answered, and its identifier is released.",
     "C04": "Run overlap: 1728 enumerated scenarios of a second sweep that overlaps the callbacks of a running one (from another goroutine or from inside a callback) with an entry registered in between; the second sweep must expire it.",
     "C05": "Runs panic / panicrandom: the failing write panics instead of returning an error; the case runs in a child process, which either dies (nothing acknowledged) or survives and is judged by the same oracle. Step sub: a subscriber appears on some node between two publishes (every topic freshly published on at that moment); the destinations of the next publish include that node.",
     "C07": "Run lifetime: a node that has held 70 000 / 300 000 topic names (most cleared again) must still retain, replay and clear a publish on a new name, on the writer and on a mirror; checkpoints around powers of 2 and 10. Run puback: at the very moment a publisher has received the acknowledgement of a retained publish (or clear) another client subscribes: it is sent the new value (nothing older after a clear).",
